@@ -89,3 +89,21 @@ func verifChildrenFull(S, B int, t0 int64) ([]*stub.Op, int) {
 	}
 	return ops, B
 }
+
+// VerifH14e: a consumer that stops pulling after cancellation while the producer still
+// has more batches than the buffer holds: the pull goroutine must not stay blocked.
+func VerifH14e() {
+	B := 5
+	t0 := sym.Int64("t0", -verifR, verifR)
+	ops, _ := verifChildrenFull(1, B, t0)
+	op := NewConcurrent(ops[0], 2)
+	ctx, cancel := context.WithCancel(context.Background())
+	taken := sym.IntRange("consumed", 1, 3)
+	for i := 0; i < taken; i++ {
+		out, err := op.Next(ctx)
+		sym.Assert("C14/abandon/next", err == nil && len(out) == 1)
+	}
+	cancel()
+	sym.CheckLeaks()
+	sym.Reached("C14/abandon/end")
+}
